@@ -73,6 +73,129 @@ Proof.
       eapply (incr_nth_lt m 0 (Z.to_nat (i + sh)) (length l1)); [exact HI | unfold len in *; lia | exact Hs | exact HL].
 Qed.
 
+Lemma nth_zrange_map {T} : forall (f : Z -> T) n a k, (k < n)%nat ->
+  nth_error (map f (zrange a n)) k = Some (f (a + Z.of_nat k)).
+Proof.
+  intros f. induction n as [|n IH]; intros a k Hk; [lia|].
+  cbn [zrange map]. destruct k as [|k']; cbn [nth_error].
+  - now rewrite Z.add_0_r.
+  - rewrite IH by lia. do 2 f_equal. lia.
+Qed.
+
+(* the verdict [rendered_cursor_ok] reads rowcol_to_yx through r_look *)
+Lemma look_verdict : forall (r2 : list ((Z * Z) * (Z * Z))) (lines : list str) row ucol ld Y X W Hh xpos ypos
+    s st mw bw cur extra d2s vlook grid,
+  0 <= row -> nth_error lines (Z.to_nat row) = Some ld -> 0 <= ucol < len ld ->
+  alist_get r2 (row, ucol) = Some (Y, X) ->
+  ypos <= Y < ypos + Hh -> xpos + mw <= X < xpos + mw + bw ->
+  rendered_cursor_ok W Hh xpos ypos
+    (mkrend s st mw bw (row, ucol) cur
+       (map_i (fun l (line : str) => map (fun c => alist_get r2 (l, c)) (zrange 0 (length line))) 0 lines)
+       extra d2s vlook grid) = true.
+Proof.
+  intros r2 lines row ucol ld Y X W Hh xpos ypos s st mw bw cur extra d2s vlook grid
+         Hr Hl Hu Hget HY HX.
+  unfold rendered_cursor_ok. cbn [r_look r_ui r_mw r_bw fst snd].
+  rewrite (map_i_nth _ lines 0 _ ld Hl).
+  rewrite nth_zrange_map by (unfold len in Hu; lia).
+  replace (0 + Z.of_nat (Z.to_nat row)) with row by lia.
+  replace (0 + Z.of_nat (Z.to_nat ucol)) with ucol by lia.
+  rewrite Hget.
+  destruct (ypos <=? Y) eqn:E1; [|lia]. destruct (Y <? ypos + Hh) eqn:E2; [|lia].
+  destruct (xpos + mw <=? X) eqn:E3; [|lia]. destruct (X <? xpos + mw + bw) eqn:E4; [|lia]. reflexivity.
+Qed.
+
+(* reading one cell of the rendered body *)
+Lemma grid_cell : forall (scr : screen) Hh bw xpos ypos mw y x, 0 <= y < Hh -> 0 <= x < bw ->
+  exists rowg,
+    nth_error (map (fun y => map (fun x => cstr (scr_get scr (y + ypos) (x + xpos + mw)))
+                                 (zrange 0 (Z.to_nat bw))) (zrange 0 (Z.to_nat Hh))) (Z.to_nat y) = Some rowg /\
+    nth_error rowg (Z.to_nat x) = Some (cstr (scr_get scr (y + ypos) (x + xpos + mw))).
+Proof.
+  intros scr Hh bw xpos ypos mw y x Hy Hx. eexists. split.
+  - rewrite nth_zrange_map by lia. reflexivity.
+  - rewrite nth_zrange_map by lia.
+    replace (0 + Z.of_nat (Z.to_nat y)) with y by lia. replace (0 + Z.of_nat (Z.to_nat x)) with x by lia.
+    reflexivity.
+Qed.
+
+(* ---------------------------------------------------------------------- *)
+(* what the processed line shows at the image of a source column *)
+Lemma tabs_go_char : forall tabstop c1 c2 line pos i ch, 1 <= tabstop ->
+  nth_error line i = Some ch ->
+  exists a, nth_error (snd (tabs_go tabstop c1 c2 line pos)) i = Some a /\ pos <= a /\
+            nth_error (fst (tabs_go tabstop c1 c2 line pos)) (Z.to_nat (a - pos))
+            = Some (if ch =? 9 then c1 else ch).
+Proof.
+  intros tabstop c1 c2. induction line as [|c r IH]; intros pos i ch Ht Hn; [destruct i; discriminate|].
+  cbn [tabs_go]. pose proof (Z.mod_pos_bound pos tabstop ltac:(lia)) as B.
+  destruct (c =? 9) eqn:Ec.
+  - set (count := if tabstop - pos mod tabstop =? 0 then tabstop else tabstop - pos mod tabstop).
+    assert (Hc : 1 <= count) by (unfold count; destruct (_ =? 0); lia).
+    destruct i as [|i']; cbn [nth_error] in Hn.
+    + inversion Hn; subst ch. destruct (tabs_go tabstop c1 c2 r (pos + count)) as [t m]. cbn [fst snd nth_error].
+      exists pos. rewrite Z.sub_diag, Ec. cbn. repeat split; lia.
+    + destruct (IH (pos + count) i' ch Ht Hn) as (a & Ha & Hge & Hch).
+      destruct (tabs_go tabstop c1 c2 r (pos + count)) as [t m]. cbn [fst snd nth_error] in *.
+      exists a. split; [exact Ha|]. split; [lia|].
+      replace (Z.to_nat (a - pos)) with (S (Z.to_nat (count - 1) + Z.to_nat (a - (pos + count))))%nat by lia.
+      cbn [nth_error]. rewrite nth_error_app2.
+      2:{ pose proof (len_str_mul [c2] (count - 1) ltac:(lia)) as L. change (len [c2]) with 1 in L. unfold len in L. lia. }
+      pose proof (len_str_mul [c2] (count - 1) ltac:(lia)) as L. change (len [c2]) with 1 in L. unfold len in L.
+      replace (Z.to_nat (count - 1) + Z.to_nat (a - (pos + count)) - length (str_mul [c2] (count - 1)))%nat
+        with (Z.to_nat (a - (pos + count))) by lia.
+      exact Hch.
+  - destruct i as [|i']; cbn [nth_error] in Hn.
+    + inversion Hn; subst ch. destruct (tabs_go tabstop c1 c2 r (pos + 1)) as [t m]. cbn [fst snd nth_error].
+      exists pos. rewrite Z.sub_diag, Ec. cbn. repeat split; lia.
+    + destruct (IH (pos + 1) i' ch Ht Hn) as (a & Ha & Hge & Hch).
+      destruct (tabs_go tabstop c1 c2 r (pos + 1)) as [t m]. cbn [fst snd nth_error] in *.
+      exists a. split; [exact Ha|]. split; [lia|].
+      replace (Z.to_nat (a - pos)) with (S (Z.to_nat (a - (pos + 1)))) by lia.
+      cbn [nth_error]. exact Hch.
+Qed.
+
+(* the character the processors show for source column [col]: the character
+   itself, the first tab cell under TabsProcessor, nothing (-> the trailing
+   blank) at the line end *)
+Definition shown (tabstop c1 ch : Z) : Z :=
+  if negb (tabstop =? 0) && (ch =? 9) then c1 else ch.
+
+Lemma process_line_char : forall bflag before tabstop c1 c2 lineno line col ucol,
+  0 <= tabstop -> 0 <= col ->
+  pl_s2d (process_line bflag before tabstop c1 c2 lineno line) col = Some ucol ->
+  (forall ch, nth_error line (Z.to_nat col) = Some ch ->
+     nth_error (pl_text (process_line bflag before tabstop c1 c2 lineno line)) (Z.to_nat ucol)
+     = Some (shown tabstop c1 ch)) /\
+  (col = len line -> ucol = len (pl_text (process_line bflag before tabstop c1 c2 lineno line))).
+Proof.
+  intros bflag before tabstop c1 c2 lineno line col ucol Ht Hc Hs.
+  unfold pl_s2d, process_line, before_shift, shown in *.
+  pose proof (len_nonneg before) as Hb.
+  set (l1 := if bflag && (lineno =? 0) then before ++ line else line) in *.
+  set (sh := if bflag && (lineno =? 0) then len before else 0) in *.
+  assert (Hl1 : len l1 = len line + sh /\ 0 <= sh /\
+                forall ch, nth_error line (Z.to_nat col) = Some ch -> nth_error l1 (Z.to_nat (col + sh)) = Some ch).
+  { unfold l1, sh. destruct (bflag && (lineno =? 0)).
+    - rewrite len_app. split; [lia|]. split; [lia|]. intros ch Hn.
+      rewrite nth_error_app2 by (unfold len; lia).
+      replace (Z.to_nat (col + len before) - length before)%nat with (Z.to_nat col) by (unfold len; lia). exact Hn.
+    - split; [lia|]. split; [lia|]. intros ch Hn. now rewrite Z.add_0_r. }
+  destruct Hl1 as (Hlen & Hsh & Hnth).
+  destruct (tabstop =? 0) eqn:E; cbn [pl_map pl_shift pl_text negb andb] in *.
+  - inversion Hs; subst ucol. split; [intros ch Hn; now apply Hnth | intros ->; lia].
+  - pose proof (tabs_go_last tabstop c1 c2 l1 0 ltac:(lia)) as HL.
+    split.
+    + intros ch Hn. destruct (tabs_go_char tabstop c1 c2 l1 0 _ ch ltac:(lia) (Hnth ch Hn)) as (a & Ha & _ & Hch).
+      destruct (tabs_go tabstop c1 c2 l1 0) as [t m]. cbn [pl_map pl_shift pl_text fst snd] in *.
+      unfold map_get in Hs. destruct (col + sh <? 0) eqn:E2; [lia|].
+      rewrite Ha in Hs. inversion Hs; subst a. rewrite Z.sub_0_r in Hch. exact Hch.
+    + intros Hcol. destruct (tabs_go tabstop c1 c2 l1 0) as [t m]. cbn [pl_map pl_shift pl_text fst snd] in *.
+      unfold map_get in Hs. destruct (col + sh <? 0) eqn:E2; [lia|].
+      replace (Z.to_nat (col + sh)) with (length l1) in Hs by (unfold len in *; lia).
+      rewrite HL in Hs. inversion Hs. lia.
+Qed.
+
 (* ---------------------------------------------------------------------- *)
 Section Render.
   Variables (g : cfg) (W Hh xpos ypos : Z) (text : str) (cursor : Z) (st : sstate).
@@ -102,10 +225,19 @@ Section Render.
     exists r ucol Y X,
       render g W Hh xpos ypos text cursor st = Some r /\ r_status r = 0 /\
       r_ui r = (r_row, ucol) /\
+      pl_s2d (process_line (g_bflag g) (g_before g) (g_tabstop g) TABCH1 TABCH2 r_row line) r_col = Some ucol /\
       pl_d2s (process_line (g_bflag g) (g_before g) (g_tabstop g) TABCH1 TABCH2 r_row line) ucol = r_col /\
       r_cursor r = (Y, X) /\
       ypos <= Y < ypos + Hh /\
-      xpos + r_mw r <= X < xpos + r_mw r + r_bw r /\ r_bw r = r_bwid.
+      xpos + r_mw r <= X < xpos + r_mw r + r_bw r /\ r_bw r = r_bwid /\
+      (* the cursor IS registered in rowcol_to_yx (the verdict the _refuted theorems use) *)
+      rendered_cursor_ok W Hh xpos ypos r = true /\
+      (* and the body cell at the cursor shows the character of the processed line there *)
+      exists c rowg,
+        nth_error (pl_text (process_line (g_bflag g) (g_before g) (g_tabstop g) TABCH1 TABCH2 r_row line) ++ [SP])
+                  (Z.to_nat ucol) = Some c /\
+        nth_error (r_grid r) (Z.to_nat (Y - ypos)) = Some rowg /\
+        nth_error rowg (Z.to_nat (X - xpos - r_mw r)) = Some (tab_disp g c).
   Proof.
     intros Hwrap Hfit. destruct Hdoc as (Hr0 & Hline & Hcol). destruct Hoff as (Ht & Hb & _ & _).
     assert (Hbw : 1 <= r_bwid).
@@ -139,15 +271,38 @@ Section Render.
                   r_bwid Hh (xpos + margin_width g (len lines)) ypos (g_top g) (g_bottom g) lines r_row ucol st (g_allow g) kc
                   (fun c => proj1 (Hnarrow c)) (fun c => proj2 (Hnarrow c))
                   Hfit HW Ht Hb Hvs Hlines Hrow Hcx Hkc) as HT.
-    cbv zeta in HT. destruct HT as (Hy & Hx & Hget & _).
+    cbv zeta in HT. destruct HT as (Hy & Hx & Hget & c & Hc & Hcell).
+    rewrite Hnth in Hc, Hcx.
     unfold render, render_gen.
     destruct ((W <=? 0) || (Hh <=? 0)) eqn:E0; [lia|].
     fold r_src r_row r_col. fold P. fold pls. rewrite Hpl, Hu. fold lines.
     cbv zeta. rewrite Hwrap. unfold r_bwid in *. rewrite <- Hlen in *.
-    unfold scroll_wrap in *. rewrite Hget.
+    unfold scroll_wrap in *.
+    match type of Hget with _ = Some (?a + ypos, ?b + _) => set (yy := a) in *; set (xx := b) in * end.
+    rewrite Hget.
     eexists. exists ucol. eexists. eexists.
-    split; [reflexivity|]. cbn [r_status r_ui r_cursor r_mw r_bw].
-    repeat split; try exact Hinv; try lia.
+    split; [reflexivity|]. cbn [r_status r_ui r_cursor r_mw r_bw r_grid].
+    split; [reflexivity|]. split; [reflexivity|]. split; [first [exact Hu | reflexivity]|]. split; [exact Hinv|]. split; [reflexivity|].
+    split; [lia|]. split; [lia|]. split; [lia|]. split.
+    - eapply (look_verdict _ lines r_row ucol (pl_text (P r_row line) ++ [SP])); [lia | exact Hln | exact Hcx | exact Hget | lia | lia].
+    - exists c.
+      destruct (grid_cell (cscr (copy_body (tab_sw g) (tab_dw g) (tab_disp g) true (g_haspfx g) (cfg_pfx g)
+                                   (W - margin_width g (len lines) - rmargin_width g) Hh
+                                   (xpos + margin_width g (len lines)) ypos lines
+                                   (scroll_wrap_gen true (g_allow g)
+                                      (fun l => height_for_line (tab_sw g) (g_haspfx g) (cfg_pfx g) (nth (Z.to_nat l) lines []) l
+                                                  (W - margin_width g (len lines) - rmargin_width g) None)
+                                      (fun s0 => height_for_line (tab_sw g) (g_haspfx g) (cfg_pfx g) (nth (Z.to_nat r_row) lines []) r_row
+                                                  (W - margin_width g (len lines) - rmargin_width g) (Some s0))
+                                      (W - margin_width g (len lines) - rmargin_width g) Hh (g_top g) (g_bottom g) r_row ucol (len lines) st)))
+                 Hh (W - margin_width g (len lines) - rmargin_width g) xpos ypos (margin_width g (len lines)) yy xx Hy Hx)
+        as (rowg & G1 & G2).
+      exists rowg. split; [exact Hc|].
+      replace (yy + ypos - ypos) with yy by lia.
+      replace (xx + (xpos + margin_width g (len lines)) - xpos - margin_width g (len lines)) with xx by lia.
+      split; [exact G1|]. rewrite G2. f_equal.
+      replace (xx + xpos + margin_width g (len lines)) with (xx + (xpos + margin_width g (len lines))) by lia.
+      exact Hcell.
   Qed.
 
   Lemma render_nowrap_cursor :
@@ -157,10 +312,19 @@ Section Render.
     exists r ucol Y X,
       render g W Hh xpos ypos text cursor st = Some r /\ r_status r = 0 /\
       r_ui r = (r_row, ucol) /\
+      pl_s2d (process_line (g_bflag g) (g_before g) (g_tabstop g) TABCH1 TABCH2 r_row line) r_col = Some ucol /\
       pl_d2s (process_line (g_bflag g) (g_before g) (g_tabstop g) TABCH1 TABCH2 r_row line) ucol = r_col /\
       r_cursor r = (Y, X) /\
       ypos <= Y < ypos + Hh /\
-      xpos + r_mw r <= X < xpos + r_mw r + r_bw r /\ r_bw r = r_bwid.
+      xpos + r_mw r <= X < xpos + r_mw r + r_bw r /\ r_bw r = r_bwid /\
+      (* the cursor IS registered in rowcol_to_yx (the verdict the _refuted theorems use) *)
+      rendered_cursor_ok W Hh xpos ypos r = true /\
+      (* and the body cell at the cursor shows the character of the processed line there *)
+      exists c rowg,
+        nth_error (pl_text (process_line (g_bflag g) (g_before g) (g_tabstop g) TABCH1 TABCH2 r_row line) ++ [SP])
+                  (Z.to_nat ucol) = Some c /\
+        nth_error (r_grid r) (Z.to_nat (Y - ypos)) = Some rowg /\
+        nth_error rowg (Z.to_nat (X - xpos - r_mw r)) = Some (tab_disp g c).
   Proof.
     intros Hwrap Hfit. destruct Hdoc as (Hr0 & Hline & Hcol).
     set (pw := if g_haspfx g then strw (tab_sw g) (cfg_pfx g r_row 0) else 0) in *.
@@ -192,14 +356,28 @@ Section Render.
                   lines r_row ucol st (g_allow g)
                   (fun c => proj1 (Hnarrow c)) (fun c => proj2 (Hnarrow c))
                   HW Hoff Hrow Hcx Hfit) as HT.
-    cbv zeta in HT. destruct HT as (Hy & Hx & Hget & _).
+    cbv zeta in HT. destruct HT as (Hy & Hx & Hget & c & Hc & Hcell).
+    rewrite Hnth in Hc, Hcx.
     unfold render, render_gen.
     destruct ((W <=? 0) || (Hh <=? 0)) eqn:E0; [lia|].
     fold r_src r_row r_col. fold P. fold pls. rewrite Hpl, Hu. fold lines.
-    cbv zeta. rewrite Hwrap. unfold r_bwid in *. rewrite <- Hlen in *. fold pw in Hget, Hx, Hy |- *.
+    cbv zeta. rewrite Hwrap. unfold r_bwid in *. rewrite <- Hlen in *. fold pw in Hget, Hx, Hy, Hcell |- *.
+    match type of Hget with _ = Some (?a + ypos, ?b + _) => set (yy := a) in *; set (xx := b) in * end.
     rewrite Hget.
     eexists. exists ucol. eexists. eexists.
-    split; [reflexivity|]. cbn [r_status r_ui r_cursor r_mw r_bw].
-    repeat split; try exact Hinv; try lia.
+    split; [reflexivity|]. cbn [r_status r_ui r_cursor r_mw r_bw r_grid].
+    split; [reflexivity|]. split; [reflexivity|]. split; [first [exact Hu | reflexivity]|]. split; [exact Hinv|]. split; [reflexivity|].
+    split; [lia|]. split; [lia|]. split; [lia|]. split.
+    - eapply (look_verdict _ lines r_row ucol (pl_text (P r_row line) ++ [SP])); [lia | exact Hln | exact Hcx | exact Hget | lia | lia].
+    - exists c.
+      match goal with |- context [scr_get (cscr ?o) _ _] =>
+        destruct (grid_cell (cscr o) Hh (W - margin_width g (len lines) - rmargin_width g) xpos ypos
+                    (margin_width g (len lines)) yy xx Hy ltac:(lia)) as (rowg & G1 & G2) end.
+      exists rowg. split; [exact Hc|].
+      replace (yy + ypos - ypos) with yy by lia.
+      replace (xx + (xpos + margin_width g (len lines)) - xpos - margin_width g (len lines)) with xx by lia.
+      split; [exact G1|]. rewrite G2. f_equal.
+      replace (xx + xpos + margin_width g (len lines)) with (xx + (xpos + margin_width g (len lines))) by lia.
+      exact Hcell.
   Qed.
 End Render.
